@@ -17,12 +17,56 @@ from __future__ import annotations
 import json
 import os
 import random
+import signal
 import sys
+import termios
+import threading
+import time
 from fractions import Fraction
 
 FG = (0x12, 0x34, 0x56)
 BG = (0xAB, 0xCD, 0xEF)
 NAME = ("verifterm", "1.2.3")
+
+
+# Faults raised out of a terminal query (TermCache!CellFault / SetRatioFault / MemoFault): when a fault is
+# armed, the terminal does not answer the next query burst; the responder thread signals the main thread
+# instead, whose handler raises the exception inside the library's query: "kbd" = SIGINT =>
+# KeyboardInterrupt (a Ctrl-C), "exc" = SIGUSR1 => termios.error (an ordinary Exception subclass, what the
+# termios calls raise on a dying tty).  To make the point of the fault the same in every run, the handler
+# raises only when the interrupted frame is inside utils.read_tty() (the request has been written, the
+# response is being awaited) and otherwise asks for the signal to be sent again a moment later
+# (write_tty() itself swallows termios.error around tcdrain()).
+FAULT_SIGNALS = {"kbd": signal.SIGINT, "exc": signal.SIGUSR1}
+FAULT_TYPES = (KeyboardInterrupt, termios.error)
+TERM = None
+MAX_DEFER = 4000
+
+
+def _fault_handler(signum, frame):
+    term = TERM
+    kind = term.fired if term else None
+    if kind is None or term.raised:
+        return
+    f = frame
+    while f is not None and f.f_code.co_name != "read_tty":
+        f = f.f_back
+    if f is None and term.deferred < MAX_DEFER:
+        term.deferred += 1
+        term.again.set()
+        return
+    term.raised = True
+    if kind == "kbd":
+        raise KeyboardInterrupt
+    raise termios.error(5, "Input/output error (injected)")
+
+
+def install_fault_handlers(term):
+    global TERM
+    TERM = term
+    signal.signal(signal.SIGINT, _fault_handler)
+    signal.signal(signal.SIGUSR1, _fault_handler)
+    threading.Thread(target=term.kicker, name="fault-kicker", daemon=True).start()
 
 
 class Term:
@@ -32,6 +76,38 @@ class Term:
         self.master = master
         self.pty = pty
         self.env = dict(cols=80, rows=24, xpx=640, ypx=384, iopx=True, xt="text")
+        self.armed = None   # fault kind to raise at the next query
+        self.fired = None   # fault kind that has been raised during the current operation
+        self.muted = False  # the rest of the burst that met the fault (up to its DA1) is not answered
+        self.burst_done = threading.Event()
+        self.again = threading.Event()  # the handler asks for the signal once more
+        self.raised = False  # the handler has raised the exception of the current fault
+        self.deferred = 0
+        self.main = threading.main_thread().ident
+
+    def kicker(self):
+        while True:
+            self.again.wait()
+            self.again.clear()
+            time.sleep(0.0003)
+            kind = self.fired
+            if kind and not self.raised:
+                signal.pthread_kill(self.main, FAULT_SIGNALS[kind])
+
+    def arm(self, kind):
+        self.fired = None
+        self.raised = False
+        self.deferred = 0
+        self.burst_done.clear()
+        self.armed = kind
+
+    def disarm(self):
+        """End of the operation: returns the kind of fault that was raised (None if it did not query)."""
+        self.armed = None
+        fired, self.fired = self.fired, None
+        if fired and not self.burst_done.wait(10):
+            raise SystemExit("the responder did not see the end of the burst that met the fault")
+        return fired
 
     def set_env(self, env):
         self.env = dict(env)
@@ -48,6 +124,16 @@ class Term:
 
     def answer(self, kind, m):
         e = self.env
+        if self.armed and kind in ("winop", "osc", "xtversion"):
+            # the terminal chokes on this burst; the exception is raised in the thread that is querying
+            self.fired, self.armed = self.armed, None
+            self.muted = True
+            signal.pthread_kill(self.main, FAULT_SIGNALS[self.fired])
+        if self.muted:
+            if kind == "da1":  # every query burst of the library ends with DA1
+                self.muted = False
+                self.burst_done.set()
+            return b""
         if kind == "winop":
             which = m.group("winop")  # b"4": text area (14 t), b"6": cell size (16 t)
             if which == b"6" and e["xt"] == "cell":
@@ -101,10 +187,34 @@ class Lib:
         r = self.resp
         return (r.count("winop"), r.count("osc"), r.count("xtversion"))
 
-    def do(self, op, arg):
-        """Execute one operation; returns (res, q, err) in the vocabulary of TermCache.tla."""
+    def do(self, op, arg, fault=None):
+        """Execute one operation; returns (res, q, err, fault) in the vocabulary of TermCache.tla.
+
+        `fault`: kind of exception to raise out of the first terminal query of this operation; the
+        returned fault is the kind that was actually raised ("" when the operation did not query)."""
+        if not fault:
+            return (*self._do(op, arg), "")
+        self.term.arm(fault)
+        try:
+            res, q, err = self._do(op, arg)
+        except FAULT_TYPES as e:
+            fired = self.term.disarm()
+            if not fired:
+                raise SystemExit(f"{type(e).__name__} without an injected fault during {op}{arg}")
+            c = self.counts()
+            self.utils.read_tty_all()
+            return [], self._q(self._c0, c), True, fired
+        fired = self.term.disarm()
+        # fired without an exception: the library swallowed it (the operation returned)
+        return res, q, err, fired or ""
+
+    @staticmethod
+    def _q(c0, c1):
+        return {"winops": (c1[0] - c0[0] + 1) // 2, "colors": (c1[1] - c0[1] + 1) // 2, "name": c1[2] - c0[2]}
+
+    def _do(self, op, arg):
         u, ti = self.utils, self.ti
-        c0 = self.counts()
+        c0 = self._c0 = self.counts()
         res, err = [], False
         if op == "Resize":
             self.term.resize(*arg)
@@ -128,6 +238,10 @@ class Lib:
                     ti.set_cell_ratio(arg[0] / arg[1])
                 else:
                     ti.set_cell_ratio(getattr(ti.AutoCellRatio, arg[0]))
+                    if arg[0] == "FIXED":
+                        # the snapshot just taken (a fixed ratio is returned as it is: no look-up)
+                        f = Fraction(ti.get_cell_ratio()).limit_denominator(10000)
+                        res = [f.numerator, f.denominator]
             except self.err:
                 err = True
         elif op == "GetColors":
@@ -140,22 +254,23 @@ class Lib:
             res = ["real" if v == NAME else "none" if v == (None, None) else f"other:{v!r}"]
         else:
             raise SystemExit(f"unknown operation {op}")
-        c1 = self.counts()
-        q = {"winops": (c1[0] - c0[0] + 1) // 2, "colors": (c1[1] - c0[1] + 1) // 2, "name": c1[2] - c0[2]}
-        return res, q, err
+        return res, self._q(c0, self.counts()), err
 
 
 def same_ratio(a, b):
     return len(a) == 2 and len(b) == 2 and a[0] * b[1] == a[1] * b[0]
 
 
-def compare(op, exp, res, q, err, allowed=()):
+def compare(op, exp, res, q, err, allowed=(), fixed=(), errok=()):
     """None if the real observation is what the edge prescribes, else (what, description).
 
     For get_cell_size() and the DYNAMIC ratio the edge carries the set of values the property
     allows (computed by TLC: TermCacheCore!AllowedCells / AllowedRatios); a value in the set that
     differs from the model's own is *drift* (reported as ("drift", ...), not a violation)."""
     if err != exp["err"]:
+        if err in errok:
+            # admissible, but the library's support status now differs from the model's: the tour ends here
+            return "drift-end", f"raised={err}, model {exp['err']}, admissible {errok}"
         return "err", f"raised={err}, specified={exp['err']}"
     if op == "GetRatio":
         if not same_ratio(res, exp["res"]):
@@ -163,6 +278,12 @@ def compare(op, exp, res, q, err, allowed=()):
                 return "drift", f"returned ratio {res}, model {exp['res']}, allowed {allowed}"
             return "res", f"returned ratio {res[0]}/{res[1]}, specified {exp['res'][0]}/{exp['res'][1]}" + (
                 f" (allowed: {allowed})" if allowed else "")
+    elif op == "SetRatio" and fixed:
+        if not same_ratio(res, fixed):
+            if any(same_ratio(res, a) for a in allowed):
+                # admissible, but the fixed ratio now differs from the model's: the tour ends here
+                return "drift-end", f"FIXED snapshot {res}, model {fixed}, allowed {allowed}"
+            return "res", f"FIXED took the snapshot {res[0]}/{res[1]}, specified {fixed[0]}/{fixed[1]} (allowed: {allowed})"
     elif op == "GetCellSize":
         if list(res) != list(exp["res"]):
             if any(list(res) == list(a) for a in allowed):
@@ -187,24 +308,40 @@ def env_of(view):
 
 
 def run_replay(lib, tours):
-    out = {"tours": 0, "ops": 0, "divergences": [], "drift": 0}
+    out = {"tours": 0, "ops": 0, "divergences": [], "drift": 0, "faults": 0, "unfired": 0, "swallowed": 0,
+           "after_fault": 0}
     for tour in tours:
         out["tours"] += 1
         lib.reset(env_of(tour[0]["from"]))
         for i, e in enumerate(tour):
             op = e["op"]
-            res, q, err = lib.do(op["op"], op["arg"])
+            res, q, err, fired = lib.do(op["op"], op["arg"], op.get("fault") or None)
             out["ops"] += 1
-            bad = compare(op["op"], op, res, q, err, e.get("allowed", ()))
+            if op.get("fault"):
+                # a fault edge prescribes no result.  The property does not say that the exception has to
+                # reach the caller, nor that the call must query: both are only counted; what the failed
+                # look-up left behind is judged by the edges that follow (op.aff: FaultFresh)
+                out["faults" if fired and err else "swallowed" if fired else "unfired"] += 1
+                continue
+            out["after_fault"] += bool(op.get("aff"))
+            bad = compare(op["op"], op, res, q, err, e.get("allowed", ()), e.get("fixed", ()), e.get("errok", ()))
+            if bad and bad[0] == "drift-end":
+                out["drift"] += 1
+                out["abandoned"] = out.get("abandoned", 0) + len(tour) - i - 1
+                break
             if bad and bad[0] == "drift":
                 out["drift"] += 1
                 bad = None
             if bad:
                 out["divergences"].append({
-                    "idx": i, "what": bad[0], "detail": bad[1], "op": op, "real": {"res": res, "q": q, "err": err},
+                    "idx": i, "what": bad[0], "detail": bad[1] + (
+                        " - after a look-up of the same fact that was cut short by an exception" if op.get("aff") else ""),
+                    "op": op, "real": {"res": res, "q": q, "err": err},
                     "env": env_of(tour[0]["from"]),
                     "prefix": [x["op"] for x in tour[: i + 1]],
                     "allowed_prefix": [x.get("allowed", []) for x in tour[: i + 1]],
+                    "fixed_prefix": [x.get("fixed", []) for x in tour[: i + 1]],
+                    "errok_prefix": [x.get("errok", []) for x in tour[: i + 1]],
                 })
                 break
         if len(out["divergences"]) >= 5:
@@ -246,15 +383,27 @@ def gen_history(rng, length):
             ops.append(("GetColors", [rng.choice(["colors", "colorshex", "colorsnohex"])]))
         else:
             ops.append(("GetName", ["name"]))
-    return env, ops
+    # faults: an exception raised out of the terminal query of a look-up (it takes effect only if the
+    # operation really queries); mostly followed by a look-up of the same fact at the unchanged terminal
+    frng = random.Random(rng.random())
+    out = []
+    for op, arg in ops:
+        if op in ("GetCellSize", "GetRatio", "GetColors", "GetName") or (op == "SetRatio" and len(arg) == 1):
+            if frng.random() < 0.15:
+                out.append((op, arg, frng.choice(["kbd", "exc"])))
+                if frng.random() < 0.6:
+                    out.append((op, arg, ""))
+                continue
+        out.append((op, arg, ""))
+    return env, out
 
 
 def run_history(lib, env, ops):
     lib.reset(env)
     ev = []
-    for op, arg in ops:
-        res, q, err = lib.do(op, arg)
-        ev.append({"op": op, "arg": arg, "res": res, "q": q, "err": err})
+    for op, arg, *f in ops:
+        res, q, err, fired = lib.do(op, arg, (f[0] if f else "") or None)
+        ev.append({"op": op, "arg": arg, "res": res, "q": q, "err": err, "fault": fired, "req": f[0] if f else ""})
     return {"env": env, "ev": ev}
 
 
@@ -272,6 +421,7 @@ def main():
     import warnings
 
     warnings.simplefilter("ignore")
+    install_fault_handlers(term)
     lib = Lib(term, resp)
     result = {}
     if job.get("tours_file"):
